@@ -224,7 +224,9 @@ func TestC14IdleTimeoutDefaultIsItsOwn(t *testing.T) {
 		case 0:
 			wto = 0
 		}
-		desc0 := fmt.Sprintf("ReadTimeout=%v WriteTimeout=%v (0 = unset) IdleTimeout unset", rto, wto)
+		// ... or set to something that means "never" (a day, a week): a peer that pauses for a second stays all the same
+		idleOf := []time.Duration{24 * time.Hour, 0, 168 * time.Hour, 100000 * time.Hour, 0, 0} // per node below, in order
+		desc0 := fmt.Sprintf("ReadTimeout=%v WriteTimeout=%v IdleTimeout (0 = unset) of the six nodes=%v", rto, wto, idleOf)
 		// every way of building the node and every kind of endpoint, side by side
 		type combo struct {
 			via    bool
@@ -242,6 +244,7 @@ func TestC14IdleTimeoutDefaultIsItsOwn(t *testing.T) {
 			wg.Add(1)
 			go func(ci int, viaConf bool, epKind string) {
 				defer wg.Done()
+				idleSet := idleOf[ci]
 				errs[ci] = watchdog(scenarioLimit, func() error {
 					port := sim.FreePort()
 					var ep gomavlib.EndpointConf
@@ -260,7 +263,7 @@ func TestC14IdleTimeoutDefaultIsItsOwn(t *testing.T) {
 						defer l.Close()
 					}
 					n := &gomavlib.Node{Endpoints: []gomavlib.EndpointConf{ep}, Dialect: ardupilotmega.Dialect, OutVersion: gomavlib.V2, OutSystemID: nodeSys,
-						HeartbeatDisable: true, ReadTimeout: rto, WriteTimeout: wto}
+						HeartbeatDisable: true, ReadTimeout: rto, WriteTimeout: wto, IdleTimeout: idleSet}
 					if err := initNodeVia(&n, viaConf); err != nil {
 						return fmt.Errorf("BROKEN: %v", err)
 					}
@@ -316,7 +319,7 @@ func TestC14IdleTimeoutDefaultIsItsOwn(t *testing.T) {
 						}
 					}
 					if closes > 0 || opens != 1 {
-						return fmt.Errorf("the peer paused for %v between two frames; the node's idle timeout was left at its default of 60 s (node.IdleTimeout reads %v): %d open and %d close events, the close says: %v", pause, n.IdleTimeout, opens, closes, cerr)
+						return fmt.Errorf("the peer paused for %v between two frames; the node's idle timeout was left at its default of 60 s or set to hours (node.IdleTimeout reads %v): %d open and %d close events, the close says: %v", pause, n.IdleTimeout, opens, closes, cerr)
 					}
 					if frames(rec.Snapshot()) != 2 {
 						return fmt.Errorf("the frame sent after a pause of %v did not surface within %v", pause, bound)
